@@ -17,6 +17,10 @@ outside its loop, is refused (on every accepted program the two semantics agree)
 import ast
 from typing import Dict, List, Optional
 
+from harness.extract.util import find_function, parse
+
+GEN_NAME = "RewardGraph"
+
 
 class Unsupported(Exception):
     pass
@@ -183,3 +187,19 @@ class GraphFn:
 
 def translate_graph_function(fn: ast.FunctionDef) -> str:
     return GraphFn(fn).translate()
+
+
+def emit() -> str:
+    sc = parse("game/science.py")
+    defs = []
+    for gname in ("topological_sort", "graph_has_cycle"):
+        defs.append(f"/-- `{gname}(graph)` (game/science.py), translated from the source -/\n"
+                    f"def fn_{gname} : Primaite.RewardGraph.Lang.Fn :=\n  " + translate_graph_function(find_function(sc, gname)))
+    nl = "\n\n"
+    return f"""import PrimaiteModel.Model.RewardGraphLang
+namespace Primaite.Gen.RewardGraph
+
+{nl.join(defs)}
+
+end Primaite.Gen.RewardGraph
+"""
